@@ -33,7 +33,7 @@ func init() {
 			"(c) URL confinement: every file-system path of Get and Set is Join(root, hex(sha256(url))) — the URL reaches the file system only through the hash (no separator or dot segment can appear, distinct URL strings give distinct keys up to SHA-256); " +
 			"(d) Set gates: nil bundle, nil base CRL, marshal error and write error are fail-closed; what is written is the marshalled entry.",
 		NotCov:  "byte equality through x509.ParseRevocationList and encoding/json (std), SHA-256 collision freedom.",
-		Trusted: []string{"go/types, go/ssa", "crypto/sha256, encoding/hex, encoding/json, crypto/x509"},
+		Trusted: []string{"go/types, go/ssa", "crypto/sha256, encoding/hex, encoding/json, crypto/x509", "x509.ParseRevocationList returns a non-nil list whenever its error is nil (used only when the expiry checks are written as a loop that skips nil lists)"},
 	})
 }
 
@@ -60,9 +60,6 @@ func findCRL(c *Ctx) *crlAnchors {
 			a.WF = fn
 		}
 	}
-	for _, fn := range w.implementers("", "", "") {
-		_ = fn
-	}
 	// the cache type: implements corecrl.Cache (Get/Set)
 	for _, fn := range w.FuncsOfPkg("verifier/crl") {
 		if fn.Signature.Recv() == nil || fn.Parent() != nil {
@@ -76,8 +73,25 @@ func findCRL(c *Ctx) *crlAnchors {
 			a.Get = fn
 		case fn.Name() == "Set" && fn.Signature.Results().Len() == 1:
 			a.Set = fn
-		case fn.Signature.Params().Len() == 1 && fn.Signature.Results().Len() == 1 && fn.Signature.Results().At(0).Type().String() == "string" && len(findCalls(fn, "crypto/sha256.Sum256")) > 0:
+		case fn.Signature.Params().Len() == 1 && fn.Signature.Results().Len() == 1 && fn.Signature.Results().At(0).Type().String() == "string" && len(findCalls(fn, "crypto/sha256.Sum256", "crypto/sha256.New")) > 0:
 			a.Key = fn
+		}
+	}
+	// The writer is the function of internal/file that Set calls and in whose call tree the rename stands (the rename
+	// itself may have been moved into a function the writer calls); when Set calls no such function, the function that
+	// renames is still examined, and Set is reported for not using it.
+	if a.Set != nil {
+		for _, ci := range allCalls(a.Set) {
+			g := staticCallee(ci)
+			if g == nil || g.Blocks == nil || g.Parent() != nil || fnPkg(g) == nil || fnPkg(g).Path() != modPath+"/internal/file" {
+				continue
+			}
+			fam, _ := c14Family(w, g)
+			for _, f := range fam {
+				if len(findCalls(f, "os.Rename")) > 0 {
+					a.WF = g
+				}
+			}
 		}
 	}
 	if a.Key == nil {
@@ -134,7 +148,7 @@ func runC14(c *Ctx) {
 	} else {
 		c.OK("set/uses-writer", "Set stores the entry through the atomic writer", w.InstrPos(wcall))
 		c.Check(desc(wcall.Call.Args[dirArg]) == recv+".root", "set/temp-in-cache-root", "the temporary file is created in the cache root (same directory, hence same file system, as the entry)", w.InstrPos(wcall), "temp dir is "+desc(wcall.Call.Args[dirArg]))
-		c.Check(desc(wcall.Call.Args[pathArg]) == wantPath, "set/destination", "the destination is Join(root, key(url)) for the URL being stored", w.InstrPos(wcall), "destination is "+desc(wcall.Call.Args[pathArg]))
+		c.Check(desc(wcall.Call.Args[pathArg]) == wantPath && c15KeyOfURL(a, a.Set, wcall.Call.Args[pathArg], a.Set.Params[2], 0), "set/destination", "the destination is Join(root, key(url)) for the URL being stored", w.InstrPos(wcall), "destination is "+desc(wcall.Call.Args[pathArg]))
 	}
 	// ---- (c) who may write ----------------------------------------------------------
 	ruleM := "who-may-write: in package verifier/crl the only file-mutating calls are os.MkdirAll in the constructor and the atomic writer in Set"
@@ -196,7 +210,7 @@ func runC14(c *Ctx) {
 			}
 		}
 	}
-	okR := len(reads) == 1 && calleeName(reads[0]) == "os.ReadFile" && desc(reads[0].Common().Args[0]) == gpath
+	okR := len(reads) == 1 && calleeName(reads[0]) == "os.ReadFile" && desc(reads[0].Common().Args[0]) == gpath && c15KeyOfURL(a, a.Get, reads[0].Common().Args[0], a.Get.Params[2], 0)
 	var names []string
 	for _, r := range reads {
 		names = append(names, calleeName(r)+"@"+w.InstrPos(r))
@@ -252,130 +266,61 @@ func c14Mutates(w *World, g *ssa.Function, depth int) bool {
 
 func c14Writer(c *Ctx, u *c14Unit, ruleW string) {
 	w := c.W
-	WF, H, ct, rn := u.WF, u.H, u.ct, u.rn
-	fi := w.Info(WF)
-	hfi := w.Info(H)
-	for _, f := range u.fns() {
+	WF, ct, rn := u.WF, u.ct, u.rn
+	for _, f := range u.fns {
 		c.SeenFn(f.String())
 	}
-	dirP := u.toWF(ct.Call.Args[0])
-	var pathP *ssa.Parameter
-	if i := c14ParamIndex(WF, rn.Call.Args[1]); i >= 0 {
-		pathP = WF.Params[i]
-	}
+	dirP := u.wfParam(u.ctFn, ct.Call.Args[0])
+	pathP := u.wfParam(u.rnFn, rn.Call.Args[1])
 	_, constPat := ct.Call.Args[1].(*ssa.Const)
-	c.Check(dirP != nil && dirP != pathP && constPat, "writer/create-temp", "the temporary file is created by os.CreateTemp(directory parameter, constant pattern): a fresh, exclusively created file per write", w.InstrPos(ct), "CreateTemp("+desc(ct.Call.Args[0])+","+desc(ct.Call.Args[1])+")")
+	c.Check(dirP != nil && dirP != pathP && constPat, "writer/create-temp", "the temporary file is created by os.CreateTemp(directory parameter, constant pattern): a fresh, exclusively created file per write", w.InstrPos(ct), "CreateTemp("+u.inWF(u.ctFn, desc(ct.Call.Args[0]))+","+desc(ct.Call.Args[1])+")")
 	if pathP == nil {
-		c.Bad("writer/protocol", ruleW, w.InstrPos(rn), "Rename's destination is not the destination parameter: "+desc(rn.Call.Args[1]))
+		c.Bad("writer/protocol", ruleW, w.InstrPos(rn), "Rename's destination is not the destination parameter: "+u.inWF(u.rnFn, desc(rn.Call.Args[1])))
 		return
 	}
-	// the handle: the file CreateTemp returned, also when it is spilled into a cell because a deferred closure reads it
-	handle := desc(ct) + "#0"
-	isHandle := func(v ssa.Value) bool {
-		d := desc(v)
-		if d == handle {
-			return true
-		}
-		if un, ok := v.(*ssa.UnOp); ok {
-			if al, ok := un.X.(*ssa.Alloc); ok {
-				n := 0
-				okSt := false
-				for _, r := range *al.Referrers() {
-					if st, ok := r.(*ssa.Store); ok && st.Addr == al {
-						n++
-						if ex, ok := st.Val.(*ssa.Extract); ok && ex.Tuple == ct && ex.Index == 0 {
-							okSt = true
-						}
-					}
-				}
-				return n == 1 && okSt && !allocWrittenByClosure(al)
-			}
-		}
-		return false
-	}
-	isNameOfHandle := func(v ssa.Value) bool {
-		call, ok := v.(*ssa.Call)
-		return ok && calleeName(call) == "(*os.File).Name" && isHandle(call.Call.Args[0])
-	}
-	var wrs, cls []*ssa.Call
-	for _, ci := range allCalls(H) {
-		call, ok := ci.(*ssa.Call)
-		if !ok {
-			continue
-		}
-		switch calleeName(call) {
-		case "(*os.File).Write":
-			if isHandle(call.Call.Args[0]) {
-				wrs = append(wrs, call)
-			}
-		case "(*os.File).Close":
-			if isHandle(call.Call.Args[0]) {
-				cls = append(cls, call)
-			}
-		}
-	}
-	// the file renamed is the temporary file: Rename's source is handle.Name() — taken in the writer itself, or handed back
-	// by H on every exit of H that reports success (the value extracted from the very call whose error is tested below)
-	srcOK := false
-	var hExits []*ExitSum
-	if H == WF {
-		srcOK = isNameOfHandle(rn.Call.Args[0])
-	} else if ex, ok := rn.Call.Args[0].(*ssa.Extract); ok && ex.Tuple == ssa.Value(u.hc) {
-		hs := w.Summarize(H, Mode{Kind: mErr})
-		c.Evals += hs.States
-		if hs.Complete && len(hs.Exits) > 0 {
-			hExits = hs.Exits
-			srcOK = true
-			for _, e := range hs.Exits {
-				v := e.Ret.Results[ex.Index]
-				if al, _ := unwrapLoadAlloc(v); al != nil && allocWrittenByClosure(al) {
-					srcOK = false
-				}
-				if !isNameOfHandle(spilledRet(v)) {
-					srcOK = false
-				}
-			}
-		}
-	}
+	// The steps on the handle, wherever in the family they stand (c14Unit.isHandle follows the file CreateTemp returned
+	// through arguments, results and captured variables). A Write or Close in a member that is called from several
+	// places, or in a closure, is counted (a second Write breaks the protocol wherever it stands) but cannot be the
+	// step of the protocol, because its facts do not read in the writer's frame.
+	wrs, wrFns, wrDeferred := u.handleCalls("(*os.File).Write")
+	cls, clFns, _ := u.handleCalls("(*os.File).Close")
+	// the file renamed is the temporary file: Rename's source is handle.Name()
+	srcOK := u.isName(u.rnFn, rn.Call.Args[0], 0)
 	var contentP *ssa.Parameter
-	if len(wrs) == 1 {
-		contentP = u.toWF(wrs[0].Call.Args[1])
-	}
-	okProto := len(wrs) == 1 && len(cls) > 0 && srcOK && contentP != nil && isByteSlice(contentP.Type()) && contentP != pathP && contentP != dirP
-	detail := ""
-	if okProto {
-		// Order of the steps, as facts on the paths (GuardsOf = what every path to the call has passed). The temporary file
-		// may also be closed a second time on the failure paths (clean-up); the Close of the protocol is one that is
-		// reached only after the write succeeded and whose success every path to the rename has passed.
-		// When H is not the writer: the rename is reached only where H's error is nil, and every exit of H that can
-		// report a nil error lies behind the success edges of Write and Close — so the same order holds across the call.
-		wr := wrs[0]
-		gw := hfi.GuardsOf(wr)
-		gr := fi.GuardsOf(rn)
-		wrOK := "EQ(" + desc(wr) + "#err,nil)"
-		afterH := func(l string) bool {
-			if H == WF {
-				return labelHas(gr, l)
-			}
-			if !labelHas(gr, "EQ("+descTailErr(u.hc)+",nil)") {
-				return false
-			}
-			for _, e := range hExits {
-				if !labelHas(e.Checked, l) {
-					return false
-				}
-			}
-			return true
+	if len(wrs) == 1 && wrDeferred == 0 {
+		if _, ok := u.chain(wrFns[0]); ok {
+			contentP = u.wfParam(wrFns[0], wrs[0].Call.Args[1])
 		}
+	}
+	others := u.otherHandleUses()
+	okProto := len(wrs) == 1 && wrDeferred == 0 && len(cls) > 0 && srcOK && contentP != nil && isByteSlice(contentP.Type()) && contentP != pathP && contentP != dirP && len(others) == 0
+	detail := ""
+	if len(others) > 0 {
+		detail = fmt.Sprintf("the temporary file is also handed to %v; ", others)
+	}
+	if okProto {
+		// Order of the steps, as facts on the paths, all read in the writer's frame (c14Unit.guards = what every path
+		// from the writer's entry to the step has passed: the guards inside the member that holds the step, and the
+		// guards of the calls that lead to it; a call whose error was tested nil contributes what every success exit of
+		// the callee lies behind — the engine's composition). The temporary file may also be closed a second time on the
+		// failure paths (clean-up); the Close of the protocol is one that is reached only after the write succeeded and
+		// whose success every path to the rename has passed.
+		wr, wrFn := wrs[0], wrFns[0]
+		gw := u.guards(wrFn, wr)
+		gr := u.guards(u.rnFn, rn)
+		wrOK := "EQ(" + u.inWF(wrFn, desc(wr)) + "#err,nil)"
 		var whyCl string
 		okCl := false
-		for _, cl := range cls {
-			gc := hfi.GuardsOf(cl)
+		for i, cl := range cls {
+			if _, ok := u.chain(clFns[i]); !ok {
+				continue
+			}
+			gc := u.guards(clFns[i], cl)
 			why := ""
 			if !labelHas(gc, wrOK) {
 				why += "Close only after the whole content was written without error is not enforced; "
 			}
-			if !afterH("EQ(" + desc(cl) + ",nil)") {
+			if !labelHas(gr, "EQ("+u.inWF(clFns[i], desc(cl))+",nil)") {
 				why += "Rename only after Close succeeded is not enforced; "
 			}
 			if why == "" {
@@ -384,75 +329,125 @@ func c14Writer(c *Ctx, u *c14Unit, ruleW string) {
 				whyCl = why
 			}
 		}
-		if !labelHas(gw, "EQ("+desc(ct)+"#err,nil)") {
+		if !labelHas(gw, "EQ("+u.inWF(u.ctFn, desc(ct))+"#err,nil)") {
 			okProto = false
 			detail += "Write only after CreateTemp succeeded is not enforced; "
 		}
 		if !okCl {
 			okProto = false
+			if whyCl == "" {
+				whyCl = "no Close of the temporary file on the way to the rename; "
+			}
 			detail += whyCl
 		}
-		if !afterH(wrOK) {
+		if !labelHas(gr, wrOK) {
 			okProto = false
 			detail += "Rename only after Write succeeded is not enforced; "
 		}
 	} else {
-		detail = fmt.Sprintf("writes=%d closes=%d; the renamed file is %s (the temporary file's name: %v); written bytes %s", len(wrs), len(cls), desc(rn.Call.Args[0]), srcOK, func() string {
+		detail += fmt.Sprintf("writes=%d closes=%d; the renamed file is %s (the temporary file's name: %v); written bytes %s", len(wrs)+wrDeferred, len(cls), desc(rn.Call.Args[0]), srcOK, func() string {
 			if len(wrs) > 0 {
-				return desc(wrs[0].Call.Args[1])
+				return u.inWF(wrFns[0], desc(wrs[0].Call.Args[1]))
 			}
 			return "-"
 		}())
 	}
 	c.Evals += 4
 	c.Check(okProto, "writer/protocol", ruleW, w.InstrPos(rn), detail)
-	// every success-capable exit goes through the rename: as a path fact, or (single-exit writers) as a fact about the
-	// values that can be returned — see c14ErrorOnlyViaRename
-	cut := map[edgeKey]bool{}
-	cutInto(fi, rn.Block(), cut)
-	wit := fi.successWitness(Mode{Kind: mErr}, entryState(), cut)
-	okExit := wit == nil
-	exitDetail := "a success exit bypasses the rename"
-	if !okExit {
-		var why string
-		if okExit, why = c14ErrorOnlyViaRename(fi, rn); okExit {
-			wit = nil
-		} else {
-			exitDetail += ": " + why
+	// Every success-capable exit goes through the rename: as a path fact, or (single-exit writers) as a fact about the
+	// values that can be returned — see c14ErrorOnlyViaRename. When the rename stands in a member the writer calls, the
+	// same holds in that member, and every success exit of each caller on the chain lies behind `err == nil` of the call
+	// (an exit that forwards the call's error counts: the engine records that fact for it).
+	okExit, exitDetail, wit := c14SuccessOnlyAfter(w, u.rnFn, rn)
+	if ch, _ := u.chain(u.rnFn); okExit {
+		for _, call := range ch {
+			s := w.Summarize(call.Parent(), Mode{Kind: mErr})
+			c.Evals += s.States
+			if !s.Complete || len(s.Exits) == 0 {
+				okExit, exitDetail = false, "the exits of "+fnName(call.Parent())+" are not understood"
+			}
+			for _, e := range s.Exits {
+				if !labelHas(e.Checked, "EQ("+descTailErr(call)+",nil)") {
+					okExit, exitDetail = false, "a success exit of "+fnName(call.Parent())+" at "+w.InstrPos(e.Ret)+" does not depend on the success of "+calleeName(call)
+				}
+			}
 		}
 	}
 	c.Check(okExit, "writer/success-only-after-rename", "the writer reports success only after the rename", w.FnPos(WF), exitDetail, wit...)
-	// the destination parameter is used only as Rename's second argument
-	okUse := true
+	// the destination parameter is used only as Rename's second argument (handed down the chain of calls to it, or
+	// rendered into a log or error text)
 	var uses []string
-	for _, r := range *pathP.Referrers() {
-		switch x := r.(type) {
-		case *ssa.DebugRef:
-		case *ssa.Call:
-			if x != rn && !isFormattingCall(x) {
-				okUse = false
-				uses = append(uses, calleeName(x))
-			}
-		default:
-			if onlyFormatted(r, 0) {
-				continue // the path is only rendered into a log or error text
-			}
-			okUse = false
-			uses = append(uses, fmt.Sprintf("%T", r))
-		}
-	}
-	c.Check(okUse, "writer/destination-only-renamed", "the destination path reaches no call other than Rename's second argument: the entry is never created, opened, truncated or used to derive the temp name", w.FnPos(WF), fmt.Sprintf("other uses of the destination path: %v", uses))
-	// no second file creation in the writer (and in the function that owns the temporary file)
+	c14DestUses(u, pathP, 0, &uses)
+	c.Check(len(uses) == 0, "writer/destination-only-renamed", "the destination path reaches no call other than Rename's second argument: the entry is never created, opened, truncated or used to derive the temp name", w.FnPos(WF), fmt.Sprintf("other uses of the destination path: %v", uses))
+	// no second file creation in the writer (and in the functions it calls)
 	nCreate := 0
-	for _, f := range u.fns() {
-		for _, ci := range allCalls(f) {
-			switch calleeName(ci) {
-			case "os.Create", "os.OpenFile", "os.WriteFile", "os.CreateTemp":
-				nCreate++
+	for _, f := range u.fns {
+		for _, g := range append([]*ssa.Function{f}, closuresOf(f)...) {
+			for _, ci := range allCalls(g) {
+				switch calleeName(ci) {
+				case "os.Create", "os.OpenFile", "os.WriteFile", "os.CreateTemp":
+					nCreate++
+				}
 			}
 		}
 	}
 	c.Check(nCreate == 1, "writer/single-create", "the writer creates exactly one file (the temporary one)", w.FnPos(WF), fmt.Sprintf("%d file-creating calls", nCreate))
+}
+
+// c14SuccessOnlyAfter: no success-capable exit of the function that holds the rename is reachable without the rename.
+func c14SuccessOnlyAfter(w *World, fn *ssa.Function, rn *ssa.Call) (bool, string, []string) {
+	if rn.Block().Index == 0 {
+		return true, "", nil // the rename stands in the entry block: every path runs it
+	}
+	fi := w.Info(fn)
+	cut := map[edgeKey]bool{}
+	cutInto(fi, rn.Block(), cut)
+	wit := fi.successWitness(Mode{Kind: mErr}, entryState(), cut)
+	if wit == nil {
+		return true, "", nil
+	}
+	if ok, why := c14ErrorOnlyViaRename(fi, rn); !ok {
+		return false, "a success exit bypasses the rename: " + why, wit
+	}
+	return true, "", nil
+}
+
+// c14DestUses: the uses of the destination parameter other than as Rename's second argument, following it into the
+// members it is handed to.
+func c14DestUses(u *c14Unit, p *ssa.Parameter, depth int, uses *[]string) {
+	if depth > 6 {
+		*uses = append(*uses, "handed on too deep")
+		return
+	}
+	for _, r := range *p.Referrers() {
+		switch x := r.(type) {
+		case *ssa.DebugRef:
+		case *ssa.Call:
+			if x == u.rn {
+				if x.Call.Args[0] == ssa.Value(p) {
+					*uses = append(*uses, "source of the rename")
+				}
+				continue
+			}
+			if isFormattingCall(x) {
+				continue
+			}
+			if g := staticCallee(x); g != nil && u.member(g) && g != u.WF && len(x.Call.Args) == len(g.Params) {
+				for i, a := range x.Call.Args {
+					if a == ssa.Value(p) {
+						c14DestUses(u, g.Params[i], depth+1, uses)
+					}
+				}
+				continue
+			}
+			*uses = append(*uses, calleeName(x))
+		default:
+			if onlyFormatted(r, 0) {
+				continue // the path is only rendered into a log or error text
+			}
+			*uses = append(*uses, fmt.Sprintf("%T", r))
+		}
+	}
 }
 
 func c14Key(c *Ctx, a *crlAnchors) {
@@ -463,60 +458,149 @@ func c14Key(c *Ctx, a *crlAnchors) {
 		return
 	}
 	c.SeenFn(a.Key.String())
-	ok := false
+	// Every return of the key function delivers the lower-case hex rendering (hex.EncodeToString, or fmt.Sprintf("%x"))
+	// of the complete SHA-256 digest of exactly the URL parameter (c14URLDigest: one-shot or streaming form).
+	ok, n := true, 0
 	got := ""
-	up := a.Key.Params[1]
+	up := a.Key.Params[len(a.Key.Params)-1]
 	for _, b := range a.Key.Blocks {
 		r, isRet := blockTerm(b).(*ssa.Return)
-		if !isRet {
+		if !isRet || len(r.Results) != 1 {
 			continue
 		}
-		got = desc(r.Results[0])
-		hx, isCall := r.Results[0].(*ssa.Call)
-		// fmt.Sprintf("%x", sha256.Sum256([]byte(url))) renders the same lower-case hex of the whole array
-		if isCall && calleeName(hx) == "fmt.Sprintf" && len(hx.Call.Args) == 2 && desc(hx.Call.Args[0]) == `const:"%x"` {
+		n++
+		rv := loadOrigin(r.Results[0])
+		hx, isCall := rv.(*ssa.Call)
+		var dig ssa.Value
+		switch {
+		case isCall && calleeName(hx) == "fmt.Sprintf" && len(hx.Call.Args) == 2 && desc(hx.Call.Args[0]) == `const:"%x"`:
 			if els := appendedElems(hx.Call.Args[1]); len(els) == 1 {
-				if sum, isSum := unwrap(els[0]).(*ssa.Call); isSum && calleeName(sum) == "crypto/sha256.Sum256" && unwrap(sum.Call.Args[0]) == ssa.Value(up) {
-					ok = true
-				}
+				dig = unwrap(els[0])
 			}
+		case isCall && calleeName(hx) == "encoding/hex.EncodeToString":
+			dig = hx.Call.Args[0]
+		}
+		if dig == nil {
+			ok, got = false, desc(rv)
 			continue
 		}
-		if !isCall || calleeName(hx) != "encoding/hex.EncodeToString" {
-			continue
+		if good, why := c14URLDigest(dig, up); !good {
+			ok, got = false, "hex("+why+")"
 		}
-		sl, isSl := hx.Call.Args[0].(*ssa.Slice)
-		if !isSl || sl.Low != nil || sl.High != nil || sl.Max != nil {
-			got += " (the hash is sliced)"
-			continue
+	}
+	c.Check(ok && n > 0, "key/sha256-of-url", rule, w.FnPos(a.Key), "the key is "+got)
+}
+
+// c14URLDigest: the value is the complete SHA-256 digest of exactly the bytes of the string parameter up —
+//   - sha256.Sum256([]byte(up)): the array itself, or the unsliced view h[:] of the variable it was assigned to (once);
+//   - h.Sum(nil) of a hash made here by sha256.New() into which exactly one thing was written, the whole of up
+//     (io.WriteString(h, up) or h.Write([]byte(up))), on every path before the Sum, and which is used for nothing else
+//     (Sum appends the digest of everything written so far to its argument: a nil argument and a single write of the
+//     URL give the same 32 bytes as the one-shot form).
+func c14URLDigest(v ssa.Value, up *ssa.Parameter) (bool, string) {
+	isURLBytes := func(x ssa.Value) bool { return unwrap(x) == ssa.Value(up) }
+	oneShot := func(x ssa.Value) (bool, string) {
+		sum, ok := x.(*ssa.Call)
+		if !ok || calleeName(sum) != "crypto/sha256.Sum256" {
+			return false, desc(x)
 		}
-		al, isAl := sl.X.(*ssa.Alloc)
-		if !isAl {
-			continue
+		if !isURLBytes(sum.Call.Args[0]) {
+			return false, "sha256(" + desc(sum.Call.Args[0]) + ")"
+		}
+		return true, ""
+	}
+	switch x := v.(type) {
+	case *ssa.Slice:
+		if x.Low != nil || x.High != nil || x.Max != nil {
+			return false, desc(v) + " (the hash is sliced)"
+		}
+		al, ok := x.X.(*ssa.Alloc)
+		if !ok {
+			return false, desc(v)
 		}
 		var src ssa.Value
 		n := 0
 		for _, rr := range *al.Referrers() {
-			if st, isSt := rr.(*ssa.Store); isSt && st.Addr == al {
-				n++
-				src = st.Val
+			switch y := rr.(type) {
+			case *ssa.Store:
+				if y.Addr == ssa.Value(al) {
+					n++
+					src = y.Val
+				}
+			case *ssa.IndexAddr:
+				if addrWritten(y, 0) {
+					n += 2
+				}
 			}
 		}
 		if n != 1 {
-			continue
+			return false, desc(v) + " (the array is written more than once)"
 		}
-		sum, isSum := src.(*ssa.Call)
-		if !isSum || calleeName(sum) != "crypto/sha256.Sum256" {
-			got = "hex(" + desc(src) + ")"
-			continue
+		return oneShot(src)
+	case *ssa.Call:
+		if calleeName(x) == "crypto/sha256.Sum256" {
+			return oneShot(x)
 		}
-		if unwrap(sum.Call.Args[0]) == ssa.Value(up) {
-			ok = true
-		} else {
-			got = "hex(sha256(" + desc(sum.Call.Args[0]) + "))"
+		if calleeName(x) != "invoke:hash.Hash.Sum" || len(x.Call.Args) != 1 || !isNilConst(x.Call.Args[0]) {
+			return false, desc(v)
 		}
+		h, ok := x.Call.Value.(*ssa.Call)
+		if !ok || calleeName(h) != "crypto/sha256.New" {
+			return false, desc(v) + " (not a hash made here by sha256.New)"
+		}
+		// every use of the hash: the Sum, and one write of the URL that dominates it
+		var uses []ssa.Instruction
+		var collect func(val ssa.Value)
+		collect = func(val ssa.Value) {
+			for _, r := range *val.Referrers() {
+				switch y := r.(type) {
+				case *ssa.DebugRef:
+				case *ssa.ChangeInterface:
+					collect(y)
+				case *ssa.MakeInterface:
+					collect(y)
+				default:
+					uses = append(uses, r)
+				}
+			}
+		}
+		collect(h)
+		var wr ssa.Instruction
+		for _, r := range uses {
+			if r == ssa.Instruction(x) {
+				continue
+			}
+			call, isCall := r.(*ssa.Call)
+			if !isCall {
+				return false, fmt.Sprintf("sha256 of a hash that is also used by %T", r)
+			}
+			isWrite := false
+			switch calleeName(call) {
+			case "io.WriteString":
+				isWrite = len(call.Call.Args) == 2 && call.Call.Args[1] == ssa.Value(up)
+			case "invoke:hash.Hash.Write", "invoke:io.Writer.Write":
+				isWrite = len(call.Call.Args) == 1 && isURLBytes(call.Call.Args[0])
+				if _, isConv := call.Call.Args[0].(*ssa.Convert); !isConv {
+					isWrite = false
+				}
+			}
+			if !isWrite || wr != nil {
+				return false, "sha256 of a hash that is also fed by " + desc(call)
+			}
+			wr = call
+		}
+		if wr == nil {
+			return false, "sha256 of nothing (the URL is not written into the hash)"
+		}
+		if wr.Block() != x.Block() && !wr.Block().Dominates(x.Block()) {
+			return false, "the URL is not written into the hash on every path"
+		}
+		if wr.Block() == x.Block() && instrIndex(wr) > instrIndex(x) {
+			return false, "the URL is written into the hash after the digest was taken"
+		}
+		return true, ""
 	}
-	c.Check(ok, "key/sha256-of-url", rule, w.FnPos(a.Key), "the key is "+got)
+	return false, desc(v)
 }
 
 // ---- C15 ---------------------------------------------------------------------------
@@ -558,10 +642,10 @@ func runC15(c *Ctx) {
 	}
 	var frU *c15Frame
 	if entry != nil {
-		frU = c15FrameOf(Get, Fu)
+		frU = c15FramePath(getUnit, Get, Fu)
 	}
 	if entry == nil || frU == nil {
-		c.Bad("pairing/entry", "Get decodes the stored entry into the entry struct", w.FnPos(Get), fmt.Sprintf("%d json.Unmarshal calls into a local entry in Get and the functions of the package it calls (exactly one, in Get or a function Get calls once, is understood)", nUm))
+		c.Bad("pairing/entry", "Get decodes the stored entry into the entry struct", w.FnPos(Get), fmt.Sprintf("%d json.Unmarshal calls into a local entry in Get and the functions of the package it calls (exactly one, in Get or a function called once on the way, is understood)", nUm))
 		return
 	}
 	c.SeenFn(Fu.String())
@@ -577,11 +661,15 @@ func runC15(c *Ctx) {
 	// list (`var d *RevocationList; if entry.X != nil { d, err = Parse(entry.X) }; ...; &Bundle{X: d}`). The bundle may be
 	// filled in Get, in the function that decodes, or in a function the decoding function hands the entry to: what is
 	// parsed is compared with the entry in the frame of the decoding function.
-	var bundle *ssa.Alloc
-	var Fb *ssa.Function
-	okPair := true
-	detail := ""
-	bundleVals := map[string][]string{} // field -> how the field's value is written in conditions (in place, or the local)
+	// There may be several bundle objects (`if entry.Delta == nil { return &Bundle{Base: b}, nil }; …; return
+	// &Bundle{Base: b, Delta: d}, nil`): the rule is stated per object — each one Get can return is filled from the parse
+	// results of the like-named entry fields, and one that gets no delta is built only where the entry stores none.
+	s := w.Summarize(Get, m)
+	c.Evals += s.States
+	var bundleT types.Type
+	if r := Get.Signature.Results(); r.Len() == 2 {
+		bundleT = r.At(0).Type()
+	}
 	var nonNilSrcs func(v ssa.Value, seen map[ssa.Value]bool, out *[]ssa.Value)
 	nonNilSrcs = func(v ssa.Value, seen map[ssa.Value]bool, out *[]ssa.Value) {
 		if seen[v] {
@@ -599,59 +687,134 @@ func runC15(c *Ctx) {
 		}
 		*out = append(*out, v)
 	}
-	var bundleT types.Type
-	if r := Get.Signature.Results(); r.Len() == 2 {
-		bundleT = r.At(0).Type()
+	type bundleObj struct {
+		al   *ssa.Alloc
+		fn   *ssa.Function
+		srcs map[string][]ssa.Value // field -> the non-nil values that can be stored into it
+		vals map[string][]string    // field -> how the stored value is written in conditions, in Get's frame (the local form)
+		sts  []*ssa.Store
 	}
-	fieldSrcs := map[string][]ssa.Value{}
+	var objs []*bundleObj
+	objOf := map[*ssa.Alloc]*bundleObj{}
 	for _, fs := range c15FieldStores(getUnit, func(al *ssa.Alloc) bool { return bundleT != nil && types.Identical(al.Type(), bundleT) }) {
-		if bundle != nil && bundle != fs.al {
-			okPair = false
-			detail = "more than one bundle is filled"
+		o := objOf[fs.al]
+		if o == nil {
+			o = &bundleObj{al: fs.al, fn: fs.fn, srcs: map[string][]ssa.Value{}, vals: map[string][]string{}}
+			objOf[fs.al] = o
+			objs = append(objs, o)
+			c.SeenFn(fs.fn.String())
 		}
-		bundle, Fb = fs.al, fs.fn
 		var srcs []ssa.Value
 		nonNilSrcs(fs.st.Val, map[ssa.Value]bool{}, &srcs)
-		fieldSrcs[fs.field] = append(fieldSrcs[fs.field], srcs...)
-		if _, isPhi := fs.st.Val.(*ssa.Phi); (isPhi || len(srcs) == 1) && fs.fn == Get {
-			bundleVals[fs.field] = append(bundleVals[fs.field], desc(fs.st.Val))
+		o.sts = append(o.sts, fs.st)
+		o.srcs[fs.field] = append(o.srcs[fs.field], srcs...)
+		if _, isPhi := fs.st.Val.(*ssa.Phi); isPhi || len(srcs) == 1 {
+			if fr := c15FramePath(getUnit, Get, fs.fn); fr != nil {
+				o.vals[fs.field] = append(o.vals[fs.field], fr.in(desc(fs.st.Val)))
+			}
 		}
 	}
-	var frB *c15Frame // the frame of the function that fills the bundle, seen from the function that decodes
-	if Fb != nil {
-		c.SeenFn(Fb.String())
-		if frB = c15FrameOf(Fu, Fb); frB == nil {
+	// the objects Get can return, and how the returned value is written in Get's frame (one spelling for all exits)
+	returned := map[*ssa.Alloc]bool{}
+	okRet := len(s.Exits) > 0
+	retDesc := ""
+	for i, ex := range s.Exits {
+		if !c15ResolveObjs(w, getUnit, ex.Ret.Results[0], 0, returned) {
+			okRet = false
+		}
+		if d := desc(ex.Ret.Results[0]); i > 0 && d != retDesc {
+			okRet = false
+		} else {
+			retDesc = d
+		}
+	}
+	okPair := len(objs) > 0
+	detail := ""
+	if len(objs) == 0 {
+		detail = "no bundle is filled on the way of Get"
+	}
+	var single *bundleObj
+	if len(objs) == 1 {
+		single = objs[0]
+	}
+	filledFromEntry := map[*ssa.Alloc]bool{} // the objects that pass the per-object rule
+	for _, o := range objs {
+		okBefore := okPair
+		okPair = true
+		// the frame of the function that fills the bundle, seen from the function that decodes
+		frB := c15FramePath(getUnit, Fu, o.fn)
+		if frB == nil {
 			okPair = false
-			detail = "the bundle is filled in " + fnName(Fb) + ", which the decoding function " + fnName(Fu) + " does not call (once)"
+			detail = "a bundle is filled in " + fnName(o.fn) + ", which the decoding function " + fnName(Fu) + " does not reach by calls made once"
+			continue // okPair stays false
 		}
-	}
-	for f, srcs := range fieldSrcs {
-		for _, v := range srcs {
-			good := false
-			if ex, ok := v.(*ssa.Extract); ok && ex.Index == 0 && frB != nil {
-				if call, ok := ex.Tuple.(*ssa.Call); ok && calleeName(call) == "crypto/x509.ParseRevocationList" && frB.in(desc(call.Call.Args[0])) == ed+"."+f {
-					good = true
+		// a value that is a parameter of the function that builds the bundle (a constructor: `newBundle(base, delta)`)
+		// is what its only call passes, read in the caller (nil arguments and nil arms of a phi are no sources)
+		leaves := map[string][]c15Leaf{}
+		for f, srcs := range o.srcs {
+			for _, v0 := range srcs {
+				for _, lf := range c15ExpandParams(getUnit, o.fn, v0, 0) {
+					if !isNilConst(lf.v) {
+						leaves[f] = append(leaves[f], lf)
+					}
 				}
 			}
-			if !good {
-				okPair = false
-				detail = "bundle." + f + " receives " + desc(v)
+		}
+		for f, lfs := range leaves {
+			for _, lf := range lfs {
+				good := false
+				if ex, ok := lf.v.(*ssa.Extract); ok && ex.Index == 0 {
+					if call, ok := ex.Tuple.(*ssa.Call); ok && calleeName(call) == "crypto/x509.ParseRevocationList" {
+						if frP := c15FramePath(getUnit, Fu, lf.fn); frP != nil && frP.in(desc(call.Call.Args[0])) == ed+"."+f {
+							good = true
+						}
+					}
+				}
+				if !good {
+					okPair = false
+					detail = "bundle." + f + " receives " + desc(lf.v)
+				}
 			}
 		}
-	}
-	for _, f := range []string{"BaseCRL", "DeltaCRL"} {
-		if len(fieldSrcs[f]) == 0 {
+		if len(leaves["BaseCRL"]) == 0 {
 			okPair = false
 			if detail == "" {
-				detail = "entry field " + f + " is not parsed into bundle." + f
+				detail = "entry field BaseCRL is not parsed into bundle.BaseCRL"
 			}
 		}
+		if len(leaves["DeltaCRL"]) == 0 {
+			// an object without a delta is sound only where the entry has none: every path to its construction has
+			// passed `entry.DeltaCRL == nil` (read in the frame of the decoding function)
+			noDelta := false
+			if len(objs) > 1 {
+				for l := range w.Info(o.fn).GuardsOf(o.al) {
+					if frB.in(l) == "EQ("+ed+".DeltaCRL,nil)" {
+						noDelta = true
+					}
+				}
+			}
+			if !noDelta {
+				okPair = false
+				if detail == "" {
+					detail = "entry field DeltaCRL is not parsed into bundle.DeltaCRL"
+				}
+			}
+		}
+		filledFromEntry[o.al] = okPair
+		okPair = okPair && okBefore
 	}
-	// Nothing else writes the two objects: the entry is only decoded into, the bundle only filled by the stores just
+	// Nothing else writes the two objects: the entry is only decoded into, the bundles only filled by the stores just
 	// examined (a function that is handed a pointer to either could otherwise replace a field after the fact). And when a
 	// helper's frame is involved, its facts name the objects by type and local name: there must be one of each on the way.
-	if bundle != nil {
-		if fs := c15ForeignStores(w, getUnit, bundle.Type(), bundle); len(fs) > 0 {
+	// With several bundle objects no fact may name one of them by its local name at all (the expiry facts are then
+	// stated on the value Get returns, see below), every local of the bundle type must be one of the objects examined,
+	// and Get must be able to return each of them (none is built only to be checked in place of the one returned).
+	if bundleT != nil {
+		mine := map[*ssa.Alloc]bool{}
+		for _, o := range objs {
+			mine[o.al] = true
+		}
+		if fs := c15ForeignStoresSet(w, getUnit, bundleT, mine); len(fs) > 0 {
 			okPair = false
 			detail = "the bundle is also written through another reference: " + fs[0]
 		}
@@ -660,15 +823,29 @@ func runC15(c *Ctx) {
 		okPair = false
 		detail = "the decoded entry is modified before it is parsed: " + fs[0]
 	}
-	if Fu != Get || (Fb != nil && Fb != Get) {
+	helperInvolved := Fu != Get
+	for _, o := range objs {
+		if o.fn != Get {
+			helperInvolved = true
+		}
+	}
+	if helperInvolved {
 		if n := c15LocalsOfType(getUnit, entry.Type()); n != 1 {
 			okPair = false
 			detail = fmt.Sprintf("%d locals of the entry type on the way of Get", n)
 		}
-		if bundle != nil {
-			if n := c15LocalsOfType(getUnit, bundle.Type()); n != 1 {
+	}
+	if bundleT != nil && (helperInvolved || len(objs) > 1) {
+		if n := c15LocalsOfType(getUnit, bundleT); n != len(objs) {
+			okPair = false
+			detail = fmt.Sprintf("%d locals of the bundle type on the way of Get, %d of them filled from the entry", n, len(objs))
+		}
+	}
+	if len(objs) > 1 {
+		for _, o := range objs {
+			if !returned[o.al] {
 				okPair = false
-				detail = fmt.Sprintf("%d locals of the bundle type on the way of Get", n)
+				detail = "a bundle is built at " + w.InstrPos(o.al) + " that Get never returns"
 			}
 		}
 	}
@@ -695,9 +872,9 @@ func runC15(c *Ctx) {
 	var frE *c15Frame
 	if Fe != nil {
 		c.SeenFn(Fe.String())
-		if frE = c15FrameOf(Set, Fe); frE == nil {
+		if frE = c15FramePath(setUnit, Set, Fe); frE == nil {
 			okSet = false
-			sdetail += "the entry is built in " + fnName(Fe) + ", which Set does not call (once); "
+			sdetail += "the entry is built in " + fnName(Fe) + ", which Set does not reach by calls made once; "
 		}
 	}
 	if sEntry != nil {
@@ -728,39 +905,69 @@ func runC15(c *Ctx) {
 	c.Check(okSet, "pairing/set", "Set stores bundle.X.Raw into entry field X for X in {BaseCRL, DeltaCRL}", w.FnPos(Set), sdetail)
 	// ---- (b) gates of Get ---------------------------------------------------------------
 	// Facts are compared as whole labels: a disjunction that merely contains the wanted fact is weaker and does not count.
-	s := w.Summarize(Get, m)
-	c.Evals += s.States
+	gNeeds := []c15Need{}
 	var rf *ssa.Call
 	for _, ci := range findCalls(Get, "os.ReadFile") {
-		rf = ci.(*ssa.Call)
+		rf, _ = ci.(*ssa.Call)
 	}
-	bd := ""
-	if bundle != nil {
-		bd = desc(bundle)
-	}
-	var needs []Need
 	if rf != nil {
-		needs = append(needs, exactNeed("read-error", "os.ReadFile err == nil", "EQ("+desc(rf)+"#err,nil)"))
+		gNeeds = append(gNeeds, c15Need{"read-error", "os.ReadFile err == nil", "EQ(" + desc(rf) + "#err,nil)", nil})
+	} else {
+		c.Bad("get/read-error", "Get reads the entry with os.ReadFile and fails on a read error", w.FnPos(Get), "no os.ReadFile call in Get itself (a read delegated to a helper is not understood)")
 	}
-	needs = append(needs,
-		exactNeed("decode-error", "json.Unmarshal err == nil", frU.in("EQ("+desc(um)+",nil)")),
-		exactNeed("base-parse-error", "ParseRevocationList(entry.BaseCRL) err == nil", "EQ(call:crypto/x509.ParseRevocationList("+ed+".BaseCRL)#err,nil)"),
+	gNeeds = append(gNeeds,
+		c15Need{"decode-error", "json.Unmarshal err == nil", frU.in("EQ(" + desc(um) + ",nil)"), nil},
+		c15Need{"base-parse-error", "ParseRevocationList(entry.BaseCRL) err == nil", "EQ(call:crypto/x509.ParseRevocationList(" + ed + ".BaseCRL)#err,nil)", nil},
 	)
-	c.requireOnExits("get", Get, s.Exits, needs)
+	c.c15RequireOnExits("get", Get, s.Exits, gNeeds)
 	// Expiry. The clock is consulted by a function on the way of Get (role: it calls time.Now); what Get owes is stated on
 	// the NextUpdate values themselves — every success exit carries "NextUpdate is not zero" and "now is not after
 	// NextUpdate" for the bundle's base CRL — whatever the helper takes as its parameter (the time, the list, the bundle)
 	// and however many calls lie in between: the helper's facts arrive in Get's frame with its parameters substituted.
+	// How the bundle's lists are written in those facts: as a field of the value Get returns (the local, or the result
+	// of the function that builds the bundle — whichever of several objects that is, the facts are about the one
+	// returned), or, with a single object, as the local the field was filled from. A spelling that names a local is
+	// used only when there is one bundle object: two locals of one type and name print alike.
 	var EXs []*ssa.Function
 	for _, f := range getUnit[1:] {
 		if f.Parent() == nil && len(findCalls(f, "time.Now")) > 0 {
 			EXs = append(EXs, f)
 		}
 	}
+	lists := map[string][]string{} // field -> spellings of the bundle's list
+	for _, f := range []string{"BaseCRL", "DeltaCRL"} {
+		if okRet && (single != nil || !strings.Contains(retDesc, "alloc:"+namedOf(bundleT))) {
+			lists[f] = append(lists[f], retDesc+"."+f)
+		}
+		if single != nil {
+			lists[f] = append(lists[f], desc(single.al)+"."+f)
+			if single.fn == Get {
+				lists[f] = append(lists[f], single.vals[f]...)
+			}
+		}
+	}
 	notZero := func(v string) string { return "F(call:(time.Time).IsZero(" + v + ".NextUpdate))" }
 	fresh := func(v string) []string {
 		return []string{"F(call:(time.Time).After(call:time.Now()," + v + ".NextUpdate))", "F(call:(time.Time).Before(" + v + ".NextUpdate,call:time.Now()))"}
 	}
+	// The checks may also be written as one loop over a table of the bundle's lists (c15TableLoops): the loop
+	// establishes, for each list in the table, "nil, or checked" at every success exit. For the delta that is the
+	// obligation itself; for the base CRL it is the obligation once the list is known not to be nil — it is result 0 of
+	// the x509.ParseRevocationList call whose error every success exit has tested nil (pairing/get, get/base-parse-error),
+	// and that function hands back a non-nil list whenever its error is nil (trusted; the unconditional
+	// bundle.BaseCRL.NextUpdate of the straight-line form relies on the same contract).
+	tf := c15TableLoops(w, Get, m, func(ld *ssa.UnOp) bool {
+		fa, ok := ld.X.(*ssa.FieldAddr)
+		if !ok {
+			return false
+		}
+		if al, isAl := fa.X.(*ssa.Alloc); isAl {
+			o := objOf[al]
+			return o != nil && c15LoadSeesStores(gfi, ld, o.sts)
+		}
+		return true
+	})
+	baseParsed := "EQ(call:crypto/x509.ParseRevocationList(" + ed + ".BaseCRL)#err,nil)"
 	if len(EXs) == 0 {
 		c.Bad("get/base-expiry", "Get checks the expiry of the base CRL", w.FnPos(Get), "no expiry check on a NextUpdate")
 	} else {
@@ -771,11 +978,14 @@ func runC15(c *Ctx) {
 		for _, ex := range s.Exits {
 			c.Evals++
 			okEx := false
-			for _, v := range append([]string{bd + ".BaseCRL"}, bundleVals["BaseCRL"]...) {
+			for _, v := range lists["BaseCRL"] {
 				fr := fresh(v)
 				if labelHas(ex.Checked, notZero(v)) && (labelHas(ex.Checked, fr[0]) || labelHas(ex.Checked, fr[1])) {
 					okEx = true
 					site = ex.Checked[notZero(v)]
+				}
+				if tf.nilOrFresh[v] && tf.nilOrNotZero[v] && okPair && labelHas(ex.Checked, baseParsed) {
+					okEx = true
 				}
 			}
 			if !okEx {
@@ -788,11 +998,18 @@ func runC15(c *Ctx) {
 		c.Check(okBase, "get/base-expiry", rule, site, bdetail)
 		// no delta: the bundle's field (or the local it is built from) is nil, or the entry stores none (pairing/get)
 		dl := []string{"EQ(" + ed + ".DeltaCRL,nil)"}
-		for _, v := range append([]string{bd + ".DeltaCRL"}, bundleVals["DeltaCRL"]...) {
+		for _, v := range lists["DeltaCRL"] {
 			dl = append(dl, "EQ("+v+",nil)")
 			dl = append(dl, fresh(v)...)
 		}
 		ok, n, wit := c15Blocked(w, Get, m, oneOfLabels(dl), 0)
+		if !ok {
+			for _, v := range lists["DeltaCRL"] {
+				if tf.nilOrFresh[v] {
+					ok, n, wit = true, tf.gates, nil
+				}
+			}
+		}
 		c.slot(ok && n >= 2, n, "get/delta-expiry", "whenever the bundle has a delta CRL its expiry check passes (independently of the base)", w.FnPos(Get), "a bundle whose delta CRL is expired is returned", wit...)
 		for _, EX := range EXs {
 			c15Expiry(c, EX)
@@ -819,15 +1036,14 @@ func runC15(c *Ctx) {
 		}
 		c.Check(okMiss, "get/missing-is-miss", "a URL never stored (file does not exist) yields the cache-miss sentinel, other read errors an error", w.FnPos(Get), "no miss for a non-existent entry")
 	}
-	// the bundle returned is the one filled: the object itself, or the result of the function that fills it, which hands
-	// back that object on every exit that reports success
-	okRet := len(s.Exits) > 0 && bundle != nil
-	for _, ex := range s.Exits {
-		if !c15ResolvesTo(w, ex.Ret.Results[0], bundle, 0) {
+	// the bundle returned is one of those filled: the object itself, or the result of the function that fills it, which
+	// hands back such an object on every exit that reports success (c15ResolveObjs, computed above)
+	for al := range returned {
+		if !filledFromEntry[al] {
 			okRet = false
 		}
 	}
-	c.Check(okRet, "get/returns-parsed-bundle", "Get returns the bundle parsed from the entry", w.FnPos(Get), "another value is returned")
+	c.Check(okRet && len(returned) > 0, "get/returns-parsed-bundle", "Get returns the bundle parsed from the entry", w.FnPos(Get), "another value is returned")
 	// ---- (c) confinement ------------------------------------------------------------------
 	wfUnit, _ := c14FindUnit(w, a.WF)
 	_, pathArg, contentArg := wfUnit.roles() // which argument of the writer is the destination, which the content
@@ -858,6 +1074,9 @@ func runC15(c *Ctx) {
 				if desc(pa) != want {
 					ok = false
 					bad = append(bad, nm+"("+desc(pa)+")")
+				} else if !c15KeyOfURL(a, fn, pa, fn.Params[2], 0) {
+					ok = false
+					bad = append(bad, nm+"("+desc(pa)+" — the key of another string than the URL parameter)")
 				}
 			}
 		}
@@ -875,54 +1094,70 @@ func runC15(c *Ctx) {
 		if a.WF != nil && staticCallee(call) == a.WF {
 			wcall = call
 		}
-		if calleeName(call) == "encoding/json.Marshal" {
-			mcall = call
+	}
+	// The encoder may stand in Set or in a function Set calls (`contentBytes, err := encodeBundle(bundle)`): it is found
+	// from what is written — the content argument of the writer is result 0 of a json.Marshal call, directly or handed
+	// back by the function(s) in between on every exit that reports success (c15MarshalOf). Its error is then a fact of
+	// the function it stands in, read in Set's frame.
+	var Fm *ssa.Function
+	var frM *c15Frame
+	if wcall != nil {
+		if mcall = c15MarshalOf(w, setUnit, wcall.Call.Args[contentArg], 0); mcall != nil {
+			Fm = mcall.Parent()
+			frM = c15FramePath(setUnit, Set, Fm)
+			c.SeenFn(Fm.String())
 		}
 	}
-	setNeeds := []Need{
-		exactNeed("nil-bundle", "bundle != nil", "NE("+bp+",nil)"),
-		exactNeed("nil-base", "bundle.BaseCRL != nil", "NE("+bp+".BaseCRL,nil)"),
+	setNeeds := []c15Need{
+		{"nil-bundle", "bundle != nil", "NE(" + bp + ",nil)", nil},
+		{"nil-base", "bundle.BaseCRL != nil", "NE(" + bp + ".BaseCRL,nil)", nil},
 	}
-	if mcall != nil {
-		setNeeds = append(setNeeds, exactNeed("marshal-error", "json.Marshal err == nil", "EQ("+desc(mcall)+"#err,nil)"))
+	if mcall != nil && frM != nil {
+		var x ssa.Value
+		if Fm == Set {
+			for _, r := range *mcall.Referrers() {
+				if ex, ok := r.(*ssa.Extract); ok && ex.Index == 1 {
+					x = ex
+				}
+			}
+		}
+		setNeeds = append(setNeeds, c15Need{"marshal-error", "json.Marshal err == nil", frM.in("EQ(" + desc(mcall) + "#err,nil)"), x})
 	}
 	if wcall != nil {
-		setNeeds = append(setNeeds, exactNeed("write-error", "the writer's err == nil", "EQ("+desc(wcall)+",nil)"))
+		setNeeds = append(setNeeds, c15Need{"write-error", "the writer's err == nil", "EQ(" + desc(wcall) + ",nil)", wcall})
 	}
-	c.requireOnExits("set", Set, ss.Exits, setNeeds)
+	c.c15RequireOnExits("set", Set, ss.Exits, setNeeds)
 	// What is marshalled is the entry as it stands after all its fields were stored: the local itself (read after the
 	// stores), or the result of the function that builds it, every return of which reads the local after the stores.
 	okW := false
-	if wcall != nil && mcall != nil && sEntry != nil && frE != nil {
-		if ex, ok := wcall.Call.Args[contentArg].(*ssa.Extract); ok && ex.Tuple == mcall && ex.Index == 0 {
-			efi := w.Info(Fe)
-			// v is the entry, read at the load — or, when its address is passed on, at the instruction that consumes it
-			readsEntry := func(v ssa.Value, consumer ssa.Instruction) bool {
-				al, _ := unwrapLoadAlloc(v)
-				if al != sEntry {
-					return false
-				}
-				if ld, isLoad := v.(*ssa.UnOp); isLoad {
-					consumer = ld
-				}
-				return c15LoadSeesStores(efi, consumer, entryStores)
+	if wcall != nil && mcall != nil && frM != nil && sEntry != nil && frE != nil {
+		efi := w.Info(Fe)
+		// v is the entry, read at the load — or, when its address is passed on, at the instruction that consumes it
+		readsEntry := func(v ssa.Value, consumer ssa.Instruction) bool {
+			al, _ := unwrapLoadAlloc(v)
+			if al != sEntry {
+				return false
 			}
-			arg := unwrap(mcall.Call.Args[0])
-			if Fe == Set {
-				okW = readsEntry(arg, mcall)
-			} else if arg == ssa.Value(frE.call) {
-				okW = true
-				nRet := 0
-				for _, b := range Fe.Blocks {
-					if r, isRet := blockTerm(b).(*ssa.Return); isRet && len(r.Results) > 0 {
-						nRet++
-						if !readsEntry(r.Results[0], r) {
-							okW = false
-						}
+			if ld, isLoad := v.(*ssa.UnOp); isLoad {
+				consumer = ld
+			}
+			return c15LoadSeesStores(efi, consumer, entryStores)
+		}
+		arg := unwrap(mcall.Call.Args[0])
+		if Fe == Fm {
+			okW = readsEntry(arg, mcall)
+		} else if frE.call != nil && frE.call.Parent() == Fm && arg == ssa.Value(frE.call) {
+			okW = true
+			nRet := 0
+			for _, b := range Fe.Blocks {
+				if r, isRet := blockTerm(b).(*ssa.Return); isRet && len(r.Results) > 0 {
+					nRet++
+					if !readsEntry(r.Results[0], r) {
+						okW = false
 					}
 				}
-				okW = okW && nRet > 0
 			}
+			okW = okW && nRet > 0
 		}
 	}
 	c.Check(okW, "set/writes-marshalled-entry", "what is written is json.Marshal(entry) of the entry filled from the bundle", w.FnPos(Set), "other bytes are written")
